@@ -10,6 +10,7 @@ from smpl_extract.structural import Image
 from .partition import InvalidPartition
 from .partition import Partition
 from .partition import PartitionParser
+import struct
 
 
 class AkaiImageParser(Image):
@@ -45,7 +46,9 @@ class AkaiImageParser(Image):
                     _elem_parent=self,
                     _elem_routines=self._routines
                 )  
-            except (InvalidPartition, ConstructError) as e:
+            except (InvalidPartition, ConstructError, struct.error) as e:
+                # struct.error: a compiled construct read fewer bytes than a 
+                # field needs (image cut inside this partition's header)
                 break
             partitions.append(partition)
             partition_cnt += 1
